@@ -638,6 +638,15 @@ impl ToolCallCollector {
                         .or_else(|| buffer.as_ref().map(|buffer| buffer.arguments.clone()))
                         .unwrap_or_default();
 
+                    // A provider may repeat `output_item.done` for an item: the call completes once.
+                    let already_completed = self
+                        .completed_function_calls
+                        .iter()
+                        .any(|call| call.item_id.as_deref() == Some(item_id.as_str()));
+                    if already_completed {
+                        return;
+                    }
+
                     if let (Some(call_id), Some(name)) = (call_id, name) {
                         self.completed_function_calls.push(FunctionCallItem {
                             output_index,
